@@ -29,7 +29,7 @@ const (
 // Outcome is what one invocation of a unit does.
 type Outcome struct {
 	K  int `json:"k,omitempty"`  // OOk | OErr | OPanic
-	PV int `json:"pv,omitempty"` // panic value kind: 0 string, 1 error, 2 runtime error, 3 struct, 4 pointer, 5 uncomparable struct, 6 slice, 7 error wrapping an older *cff.PanicError, 8 an older *cff.PanicError itself
+	PV int `json:"pv,omitempty"` // panic value kind: 0 string, 1 error, 2 runtime error, 3 struct, 4 pointer, 5 uncomparable struct, 6 slice, 7 error wrapping an older *cff.PanicError, 8 an older *cff.PanicError itself, 9 an error whose Is matches every target, 10 an error whose Is panics for foreign targets
 	EV int `json:"ev,omitempty"` // error value kind: 0 unique value, 1 wraps context.DeadlineExceeded, 2 wraps context.Canceled, 3 the execution's shared instance, 4 wraps the *cff.PanicError of a nested directive, 5 a typed nil pointer in a non-nil error interface
 	T  int `json:"t,omitempty"`  // timing: 0 instant, 1 yield, 2 sleep D microseconds
 	D  int `json:"d,omitempty"`
@@ -145,6 +145,24 @@ type PanicSlice struct{ IDs []int }
 type PanicErr struct{ Env, Unit, Elem int }
 
 func (e *PanicErr) Error() string { return fmt.Sprintf("panic-error unit %d elem %d", e.Unit, e.Elem) }
+
+// PermErr is an error whose Is method reports a match for every target (a
+// category-style error), used as a panic value.
+type PermErr struct{ Env, Unit, Elem int }
+
+func (e *PermErr) Error() string {
+	return fmt.Sprintf("permissive error unit %d elem %d", e.Unit, e.Elem)
+}
+func (e *PermErr) Is(error) bool { return true }
+
+// BadIsErr is an error whose Is method panics for targets of another type
+// (an unchecked type assertion), used as a panic value.
+type BadIsErr struct{ Env, Unit, Elem int }
+
+func (e *BadIsErr) Error() string { return fmt.Sprintf("bad-is error unit %d elem %d", e.Unit, e.Elem) }
+func (e *BadIsErr) Is(target error) bool {
+	return *target.(*BadIsErr) == *e
+}
 
 // PanicStruct is a struct used as a panic value.
 type PanicStruct struct{ Env, Unit, Elem int }
@@ -591,6 +609,10 @@ func (e *Env) finish(pos int, unit, elem int, o Outcome, canErr bool, outs []uin
 			// the PanicError of an older panic itself (a task that re-panics with
 			// the error a nested directive returned)
 			inj.PV = &cff.PanicError{Value: PanicStruct{e.ID, unit, elem}}
+		case 9:
+			inj.PV = &PermErr{e.ID, unit, elem}
+		case 10:
+			inj.PV = &BadIsErr{e.ID, unit, elem}
 		default:
 			inj.PV = &PanicStruct{e.ID, unit, elem}
 		}
